@@ -25,6 +25,11 @@ pub struct Case {
     /// 0 -P, 1 -H, 2 -L
     pub follow: u8,
     pub depth_opt: u8, // 0 none, 1 -depth, 2 -d
+    /// where the options (-depth/-d, -mindepth, -maxdepth) stand: 0 before the expression,
+    /// 1 after it ("( EX ) -depth"), 2 after it in an unreachable-or-not "-o" branch, 3 -delete-free
+    /// mix: depth option after, bounds before
+    #[serde(default)]
+    pub opts_pos: u8,
     pub mindepth: Option<usize>,
     pub maxdepth: Option<usize>,
 }
@@ -75,7 +80,7 @@ pub fn gen_case(g: &mut Gen) -> Case {
         _ => Ex::Or(b(Ex::Not(b(Ex::Or(b(Ex::Not(b(t))), b(Ex::Not(b(pr()))))))), b(act(g))),
     };
     let md = |g: &mut Gen| if g.chance(1, 4) { Some(g.usize_in(0, 4)) } else { None };
-    Case { tree, roots: vec![root], ex, style: (0..24).map(|_| g.below(256) as u8).collect(), follow: g.weighted(&[5, 2, 3]) as u8, depth_opt: g.weighted(&[5, 2, 1]) as u8, mindepth: md(g), maxdepth: md(g) }
+    Case { tree, roots: vec![root], ex, style: (0..24).map(|_| g.below(256) as u8).collect(), follow: g.weighted(&[5, 2, 3]) as u8, depth_opt: g.weighted(&[5, 2, 1]) as u8, opts_pos: g.weighted(&[3, 2, 1, 2]) as u8, mindepth: md(g), maxdepth: md(g) }
 }
 
 fn parent_of(p: &str) -> Option<&str> {
@@ -197,24 +202,40 @@ pub fn check(ctx: &mut Ctx, c: &Case) -> Outcome {
     ctx.fresh_case_dir();
     c.tree.build();
     let mut tokens: Vec<String> = vec!["-sorted".into()];
+    let mut depth_toks: Vec<String> = vec![];
     match c.depth_opt {
-        1 => tokens.push("-depth".into()),
-        2 => tokens.push("-d".into()),
+        1 => depth_toks.push("-depth".into()),
+        2 => depth_toks.push("-d".into()),
         _ => {}
     }
+    let mut bound_toks: Vec<String> = vec![];
     if let Some(m) = c.mindepth {
-        tokens.push("-mindepth".into());
-        tokens.push(m.to_string());
+        bound_toks.push("-mindepth".into());
+        bound_toks.push(m.to_string());
     }
     if let Some(m) = c.maxdepth {
-        tokens.push("-maxdepth".into());
-        tokens.push(m.to_string());
+        bound_toks.push("-maxdepth".into());
+        bound_toks.push(m.to_string());
     }
-    // the expression goes in parentheses so that the options prefix does not re-associate it
+    // options are global wherever they stand: before the expression, after it, or in a branch
+    // that short-circuit evaluation may never reach
+    let (before, after): (Vec<String>, Vec<String>) = match c.opts_pos {
+        0 => ([depth_toks, bound_toks].concat(), vec![]),
+        1 | 2 => (vec![], [depth_toks, bound_toks].concat()),
+        _ => (bound_toks, depth_toks),
+    };
+    tokens.extend(before);
+    // the expression goes in parentheses so that the options do not re-associate it
     tokens.push("(".into());
     let mut st = RenderStyle { choices: &c.style, pos: 0 };
     expr::render(&c.ex, &mut st, &mut tokens);
     tokens.push(")".into());
+    if !after.is_empty() {
+        if c.opts_pos == 2 {
+            tokens.push("-o".into());
+        }
+        tokens.extend(after);
+    }
     let fm = match c.follow {
         1 => FollowMode::H,
         2 => FollowMode::L,
@@ -315,26 +336,43 @@ fn check_small(ctx: &mut Ctx, c: &SmallCase) -> Outcome {
         t.nodes.push(Node::new(paths[i + 1].clone(), if c.dirs[i] { Kind::Dir } else { Kind::File }));
     }
     t.build();
-    let mut tokens: Vec<String> = vec!["-sorted".into()];
-    if c.post {
-        tokens.push("-depth".into());
-    }
-    tokens.push("-print".into());
     let sel: Vec<&String> = (0..c.parents.len()).filter(|i| c.prune_mask >> i & 1 == 1).map(|i| &paths[i + 1]).collect();
-    tokens.push("(".into());
-    if sel.is_empty() {
-        tokens.push("-false".into());
-    }
-    for (k, p) in sel.iter().enumerate() {
-        if k > 0 {
-            tokens.push("-o".into());
+    // -depth is a global option: it must act the same before and after the -prune it disarms
+    let placements: &[bool] = if c.post { &[false, true] } else { &[false] };
+    let mut last = None;
+    for depth_last in placements {
+        let mut tokens: Vec<String> = vec!["-sorted".into()];
+        if c.post && !depth_last {
+            tokens.push("-depth".into());
         }
-        tokens.push("-path".into());
-        tokens.push((*p).clone());
+        tokens.push("-print".into());
+        tokens.push("(".into());
+        if sel.is_empty() {
+            tokens.push("-false".into());
+        }
+        for (k, p) in sel.iter().enumerate() {
+            if k > 0 {
+                tokens.push("-o".into());
+            }
+            tokens.push("-path".into());
+            tokens.push((*p).clone());
+        }
+        tokens.push(")".into());
+        tokens.push("-prune".into());
+        if c.post && *depth_last {
+            tokens.push("-depth".into());
+        }
+        match run_and_compare(ctx, &["c/r".to_string()], &tokens, FollowMode::P, false) {
+            Outcome::Fail(mut v) => {
+                if *depth_last {
+                    v.signature.push_str(":option-after-prune");
+                }
+                return Outcome::Fail(v);
+            }
+            ok => last = Some(ok),
+        }
     }
-    tokens.push(")".into());
-    tokens.push("-prune".into());
-    run_and_compare(ctx, &["c/r".to_string()], &tokens, FollowMode::P, false)
+    last.unwrap()
 }
 
 // ---- byte-wise sibling order with arbitrary (also non-UTF-8) names -----------------
